@@ -27,6 +27,7 @@ func init() {
 			"writes to memory owned by an already-published configuration value. All instructions of the module that write through a reference are enumerated " +
 			"(field store, element store, pointer store, map update/delete, append, copy destination, clear); a may-alias analysis (field-based, call-graph VTA∪CHA) selects those that may touch " +
 			"configuration-owned memory, and a flow-sensitive freshness analysis must prove each of them writes an object/referent allocated in the same activation. " +
+			"(R19.5) No configuration method stores a slice or map parameter itself: such a parameter is the caller's memory (f(names...)), which the proof above – about writes made by wazero – does not cover (genuine defect found and fixed: WithStartFunctions kept the caller's slice, so deriving a sibling configuration with append(common, x)... changed it). " +
 			"Not decided: behaviour of embedder-supplied objects referenced from a configuration (io.Reader, fs.FS, listeners).",
 		Assumptions: []string{
 			"functions outside the module do not retain their arguments; stdlib functions that write through an argument are listed in a table (sort.*, slices.*, io.ReadFull, ...)",
@@ -37,10 +38,12 @@ func init() {
 			{ID: "R19.0", Template: "anchor", Text: "configuration struct types are the concrete types implementing wazero.RuntimeConfig, wazero.ModuleConfig, wazero.FSConfig, experimental/sock.Config, closed under pointer fields to module structs", Min: 4},
 			{ID: "R19.1", Template: "T-OWN", Text: "every With… method (and constructor/clone) writes only to objects and referents that are fresh in that activation: whole-field replacement on a fresh object is allowed; element stores, appends, map updates need a referent proven fresh", Min: 29},
 			{ID: "R19.2", Template: "T-WHOWRITES", Text: "no other function of the module writes configuration-owned memory or an alias of it", Min: 1},
+			{ID: "R19.5", Template: "T-OWN", Text: "no configuration method stores a slice or map parameter itself (caller-owned memory) in a configuration (genuine defect found and fixed: WithStartFunctions)", Min: 3},
 			{ID: "R19.4", Template: "T-CAP", Text: "no reflect/unsafe use in the packages that define configuration types", Min: 1},
 		},
 		Run: runC19,
 		Controls: []core.Control{
+			{Name: "start-functions-alias-the-argument", File: "config.go", Old: "\tret.startFunctions = append([]string(nil), startFunctions...)\n", New: "\tret.startFunctions = startFunctions\n", Rule: "R19.5", Substr: "WithStartFunctions"},
 			{Name: "withenv-shares-environ", File: "config.go", Old: "ret.environ = append([][]byte(nil), c.environ...)", New: "ret.environ = c.environ", Rule: "R19.1", Substr: "WithEnv"},
 			{Name: "instantiate-writes-config", File: "runtime.go", Old: "config = config.clone() // the caller's configuration must stay unchanged\n", New: "", Rule: "R19.2", Substr: "InstantiateModule"},
 			{Name: "fsmount-write-before-clone", File: "fsconfig.go", Old: "ret := c.clone()\n\tif i, ok := ret.guestPathToFS[cleaned]; ok {", New: "ret := c.clone()\n\tif i, ok := c.guestPathToFS[cleaned]; ok {\n\t\tc.guestPaths[i] = guestPath\n\t}\n\tif i, ok := ret.guestPathToFS[cleaned]; ok {", Rule: "R19.1", Substr: "WithSysFSMount"},
@@ -128,6 +131,7 @@ func runC19(c *core.Ctx) {
 		c.Undecided("R19.0", "config-types", 0, fmt.Sprintf("only %d configuration struct types found: %v", len(seeds), seedNames))
 		return
 	}
+	checkNoCallerOwnedContainers(c, seeds)
 	// With… methods: methods of the config interfaces that return the interface
 	withMethods := map[string]bool{} // full name of concrete method
 	for n := range seeds {
@@ -347,4 +351,67 @@ func ownedWriteAnalysis(c *core.Ctx, seeds map[*types.Named]bool) (agg map[strin
 	}
 	sort.Strings(keys)
 	return
+}
+
+// checkNoCallerOwnedContainers (R19.5): a method of a configuration type stores no slice or map PARAMETER into a
+// configuration field. Such a parameter is the caller's memory (f(names...) passes the caller's slice), so the configuration
+// would follow the caller's later writes, and two configurations derived from append(common, x)... would share a backing array.
+func checkNoCallerOwnedContainers(c *core.Ctx, seeds map[*types.Named]bool) {
+	c.SSA()
+	n := 0
+	for fn := range c.AllFunctions() {
+		if !core.InModule(fn) || fn.Blocks == nil || fn.Signature.Recv() == nil {
+			continue
+		}
+		rn := core.NamedOf(fn.Signature.Recv().Type())
+		if rn == nil || !seeds[rn] {
+			continue
+		}
+		for _, b := range fn.Blocks {
+			for _, in := range b.Instrs {
+				st, ok := in.(*ssa.Store)
+				if !ok {
+					continue
+				}
+				fa, ok := st.Addr.(*ssa.FieldAddr)
+				if !ok {
+					continue
+				}
+				owner := core.NamedOf(fa.X.Type())
+				if owner == nil || !seeds[owner] {
+					continue
+				}
+				switch st.Val.Type().Underlying().(type) {
+				case *types.Slice, *types.Map:
+				default:
+					continue
+				}
+				n++
+				// does the stored value come straight from a parameter (possibly re-sliced)?
+				v := st.Val
+				for d := 0; d < 4; d++ {
+					if sl, ok := v.(*ssa.Slice); ok {
+						v = sl.X
+						continue
+					}
+					if cv, ok := v.(*ssa.ChangeType); ok {
+						v = cv.X
+						continue
+					}
+					break
+				}
+				par, isParam := v.(*ssa.Parameter)
+				fname := owner.Obj().Name() + "." + owner.Underlying().(*types.Struct).Field(fa.Field).Name()
+				if isParam && (len(fn.Params) == 0 || par != fn.Params[0]) {
+					c.Violate("R19.5", core.SSAFuncName(fn)+" stores a copy of its "+par.Type().String()+" parameter in "+fname, st.Pos(),
+						"the parameter `"+par.Name()+"` itself is stored: called as f(s...) (or with a map) it is the caller's memory, so the configuration and everything derived from it follow the caller's later writes, and configurations derived with append(common, x)... share a backing array – deriving one changes the other")
+				} else {
+					c.Discharge("R19.5", core.SSAFuncName(fn)+" stores no caller-owned container in "+fname, st.Pos(), "the stored value is built in the method (copy, conversion, literal)")
+				}
+			}
+		}
+	}
+	if n == 0 {
+		c.Undecided("R19.5", "container stores of the configuration methods", 0, "none found")
+	}
 }
